@@ -19,6 +19,12 @@ if len(rnd) and int(rnd) >= 5:
              "legitimate input types (ints instead of floats, numpy scalars or arrays where the function accepts them, parameter values given as "
              "0/1 ints), the configuration in which scipy is not installed (simulate with sys.modules['scipy'] = None before importing the "
              "library), error handling for invalid input that the property mentions, and behaviour that differs between the segment types.")
+if len(rnd) and int(rnd) >= 6:
+    extra = ("\n\nThis is the last round: formulas, caches, in-place edits, rare options and input types, the no-scipy configuration have all been "
+             "used. Look at COMPOSITIONS: a defect that shows only when one public operation is applied to the RESULT of another (for example "
+             "rotated() then cropped(), reversed() then split(), transform() then d(), scaled() then intersect(), cropped() then bbox(), "
+             "parse_path() of the output of d() of a transformed path), because the first operation leaves the object in a legal but unusual "
+             "internal state (attribute types, stored angles outside their usual range, flags, radii given negative, ...). Keep your runs light: the machine is busy.")
 for pid in sys.argv[3:]:
     wt = '/tmp/wt%s_%s' % (rnd, pid)
     if not os.path.isdir(wt):
